@@ -125,8 +125,8 @@ mod verif_curves {
         let o = Rgb::try_from((LinearRgb::new(vec![[x, 0.5, 0.25]], 1, 1).unwrap(), t, CP::BT709)).unwrap();
         o.data()[0][0]
     }
-    fn stub_powf(x: f32, y: f32) -> f32 { x * y + 1.0 }
-    fn stub_expf(x: f32) -> f32 { x + x + 1.0 }
+    fn stub_powf(x: f32, y: f32) -> f32 { f32::from_bits(x.to_bits() ^ y.to_bits().rotate_left(7) ^ 0x5555_5555) }
+    fn stub_expf(x: f32) -> f32 { f32::from_bits(x.to_bits().rotate_left(3) ^ 0x0F0F_0F0F) }
 '''
 EPILOGUE = "}\n"
 
